@@ -7,6 +7,25 @@ import subprocess
 ROOT = os.path.dirname(os.path.dirname(os.path.abspath(__file__)))
 
 CHECKS = {
+    "C08": ("model_checking",
+            "exhaustive exploration of all command histories up to a depth over {run outcomes, SIGINT, restores, gc} x clock steps, each transition the real command on the real directory state",
+            "All histories of depth <=3 (4) over 8 commands x 3 clock steps are executed; freshness invariants are evaluated at every "
+            "experiment spawn (observed at the virtual process layer) and recorded directories are digest-compared across every command.",
+            "Trusted: virtual clock/kernel seams. Bounds: depth <=3 (4), 2 experiments.",
+            "DESIGN.md §4 C08"),
+    "C12": ("fault_enumeration",
+            "exhaustive enumeration of single corruptions x prior states, and of every crash point (on-disk state between two Python lines) of restore with chained restart",
+            "Every single corruption of every archive in every prior project state, and every distinct on-disk state that exists between two "
+            "executed Python lines of cond restore (copied = what survives kill -9), checked after ordinary SQLite recovery and used as start "
+            "state for a second restore.",
+            "Trusted: SQLite atomic commit, kernel rename/mkdir atomicity, external tar (points inside one C call are not cut).",
+            "DESIGN.md §4 C12, §2 E5"),
+    "C18": ("model_checking",
+            "exhaustive enumeration of combine scenarios (dependency kinds x package placement x cache x pre-existing entry) x run histories on real directories",
+            "For every scenario a 3-run history (default, --again, default) is executed under the virtual kernel; link targets are resolved on "
+            "disk and compared with the COND_OUT each dependency was spawned with and with a sibling's COND_DEPS.",
+            "Trusted: virtual kernel seam. Bounds: <=3 dependencies, nesting <=2, 3 runs.",
+            "DESIGN.md §4 C18"),
     "C11": ("model_checking",
             "explicit-state exploration of run/archive/clean/restore histories on real directories with the real commands (real tar), canonical state = rows + Merkle digest",
             "From every project state reached by run histories (outcomes x git states) every archive variant is taken and restored into an "
